@@ -314,6 +314,31 @@ def vararg_parameter(elem_kind):
     return 'template/vararg-parameter-%s' % ['plain', 'array', 'generic'][elem_kind], _program(decls)
 
 
+def overriding_members(field_overridable, method_open):
+    """open class Base(open val x: Int) { open fun f(): Int = 1 };
+    class Derived(override val x: Int) : Base(x) { override fun f(): Int = 2 }
+    class Picker { fun <V, W> pick(a: V, b: W): V = a };  fun use(): Int = Picker().pick<Int, String>(1, "s")
+    -- overriding fields and methods, and a call through a receiver with explicit type arguments"""
+    bx = ast.FieldDeclaration('x', kt.Integer, is_final=True, can_override=True)
+    bf = ast.FunctionDeclaration('f', [], kt.Integer, ast.IntegerConstant(1, kt.Integer), ast.FunctionDeclaration.CLASS_METHOD,
+                                 is_final=False)
+    Base = ast.ClassDeclaration('Base', [], ast.ClassDeclaration.REGULAR, fields=[bx], functions=[bf], is_final=False)
+    dx = ast.FieldDeclaration('x', kt.Integer, is_final=True, can_override=bool(field_overridable), override=True)
+    df = ast.FunctionDeclaration('f', [], kt.Integer, ast.IntegerConstant(2, kt.Integer), ast.FunctionDeclaration.CLASS_METHOD,
+                                 is_final=not method_open, override=True)
+    Derived = ast.ClassDeclaration('Derived', [ast.SuperClassInstantiation(Base.get_type(), [ast.Variable('x')])],
+                                   ast.ClassDeclaration.REGULAR, fields=[dx], functions=[df], is_final=not (field_overridable or method_open))
+    V, W = tp.TypeParameter('V'), tp.TypeParameter('W')
+    pick = ast.FunctionDeclaration('pick', [ast.ParameterDeclaration('a', V), ast.ParameterDeclaration('b', W)], V,
+                                   ast.Variable('a'), ast.FunctionDeclaration.CLASS_METHOD, type_parameters=[V, W])
+    Picker = ast.ClassDeclaration('Picker', [], ast.ClassDeclaration.REGULAR, fields=[], functions=[pick])
+    call = ast.FunctionCall('pick', [ast.CallArgument(ast.IntegerConstant(1, kt.Integer)), ast.CallArgument(ast.StringConstant('s'))],
+                            receiver=ast.New(Picker.get_type(), []), type_args=[kt.Integer, kt.String])
+    use = ast.FunctionDeclaration('use', [], kt.Integer, call, ast.FunctionDeclaration.FUNCTION)
+    return ('template/overriding-members-%s-%s' % ('openfield' if field_overridable else 'finalfield', 'openmethod' if method_open else 'finalmethod'),
+            _program([Base, Derived, Picker, use]))
+
+
 _BUILDERS = {}
 
 
@@ -369,6 +394,9 @@ def all_templates():
             _reg(out, generic_subclass, fw, r)
     for k in range(4):
         _reg(out, name_role, k)
+    for a in (0, 1):
+        for b in (0, 1):
+            _reg(out, overriding_members, a, b)
     for k in range(3):
         _reg(out, super_constructor_operators, k)
         _reg(out, vararg_parameter, k)
